@@ -299,6 +299,14 @@ func newHistory(h *scripted.Harness, rng *rand.Rand, idx int, quick bool) *histo
 	hs := &history{h: h, idx: idx, j: scripted.NewJournal(), rng: rand.New(rand.NewSource(rng.Int63()))}
 	nslots := 1 + rng.Intn(3)
 	slow := rng.Intn(3) == 0 // some histories have clearly longer non-cancellable calls
+	// Every eighth history is directed at command pairs racing on one session:
+	// a terminating (or pausing) command that has to wait for the run loop, and
+	// a second command (Reset, Resume, Flush, Pause) issued a moment later that
+	// has selected the session already and gets the lifecycle lock afterwards.
+	directed := idx%8 == 7
+	if directed {
+		nslots, slow = 3, true
+	}
 	delay := func(op string) time.Duration {
 		var d time.Duration
 		hs.rand(func(r *rand.Rand) {
@@ -319,7 +327,7 @@ func newHistory(h *scripted.Harness, rng *rand.Rand, idx int, quick bool) *histo
 		return d
 	}
 	for s := 0; s < nslots; s++ {
-		slot := &c29Slot{Index: s, Mode: c11Modes[rng.Intn(4)], Paused: rng.Intn(10) < 2}
+		slot := &c29Slot{Index: s, Mode: c11Modes[rng.Intn(4)], Paused: !directed && rng.Intn(10) < 2}
 		content := func() *core.Entry {
 			m := map[string]*core.Entry{}
 			for k := 0; k < 3+rng.Intn(2); k++ {
@@ -374,6 +382,18 @@ func newHistory(h *scripted.Harness, rng *rand.Rand, idx int, quick bool) *histo
 		slot.A = h.World.NewRoot(base+"/alpha", scripted.Options{Journal: hs.j, Content: content(), PreservesExecutability: true, Delay: delay, Poll: poll})
 		slot.B = h.World.NewRoot(base+"/beta", scripted.Options{Journal: hs.j, Content: content(), PreservesExecutability: true, Delay: delay, Poll: poll})
 		hs.slots = append(hs.slots, slot)
+	}
+	if directed {
+		for s := 0; s < nslots; s++ {
+			first := []string{"Terminate", "Terminate", "Terminate", "Pause"}[rng.Intn(4)]
+			second := []string{"Reset", "Reset", "Reset", "Resume", "FlushWait", "Pause"}[rng.Intn(6)]
+			warm := time.Duration(2000+rng.Intn(6000)) * time.Microsecond
+			skew := time.Duration(rng.Intn(1500)) * time.Microsecond
+			hs.programs = append(hs.programs,
+				[]c29Op{{Kind: "Sleep", Sleep: warm}, {Kind: first, Slot: s}},
+				[]c29Op{{Kind: "Sleep", Sleep: warm + skew}, {Kind: second, Slot: s}, {Kind: "Sleep", Sleep: time.Millisecond}, {Kind: "Reset", Slot: s}})
+		}
+		return hs
 	}
 	goroutines := 2 + rng.Intn(3)
 	kinds := []string{"Pause", "Pause", "Pause", "Resume", "Resume", "Resume", "FlushWait", "FlushWait", "FlushWait", "Flush", "Reset", "Reset", "List", "Sleep", "Sleep", "Sleep", "Terminate"}
